@@ -83,13 +83,33 @@ class StepEvent:
     def clear(self): self.flag = False
     def is_set(self): return self.flag
 
+def attr_of_type(obj, cls, prefer):
+    """(name, value) of the attribute of `obj` holding an instance of `cls`: under the name the unchanged code uses, or under
+    whatever name it has now (private names of the code under test are not part of what the harness relies on)"""
+    v = getattr(obj, prefer, None)
+    if isinstance(v, cls):
+        return prefer, v
+    for k, v in vars(obj).items():
+        if isinstance(v, cls):
+            return k, v
+    return prefer, None
+
+def gen_breaker(gen):
+    return attr_of_type(gen, StepEvent, "_breaker")[1]
+
+def gen_thread(gen):
+    return attr_of_type(gen, (StepThread, FakeThread), "_thread")[1]
+
 class StepThread:
     def __init__(self, target=None):
         self.daemon = False
         self.exc = None
         self.target = target
-        self.breaker = target.__self__._breaker
+        self.owner = target.__self__
         self.t = threading.Thread(target=self._run, daemon=True)
+    @property
+    def breaker(self):
+        return gen_breaker(self.owner)
     def _run(self):
         try:
             self.target()
@@ -139,8 +159,8 @@ class VClock:
 
 def worker_tick(gen):
     """one iteration of the real _worker loop: wait() returns False, send_clck_ind(), next wait()"""
-    th = gen._thread
-    br = gen._breaker
+    tname, th = attr_of_type(gen, (StepThread, FakeThread), "_thread")
+    br = gen_breaker(gen)
     VClock.ticks += 1
     if (Draw.seed + VClock.ticks) % 5 == 0:
         VClock.now += (2 + (Draw.seed + VClock.ticks) % 3) * VClock.FRAME_NS + 17
@@ -152,8 +172,9 @@ def worker_tick(gen):
         exc, th.exc = th.exc, None
         th.t.join()
         th.reaped = True
-        gen._thread = StepThread(gen._worker)
-        gen._thread.start()
+        nt = StepThread(th.target)
+        setattr(gen, tname, nt)
+        nt.start()
         raise exc
 
 clck_gen.threading = types.SimpleNamespace(Thread=_mk_thread, Event=_mk_event)
@@ -279,16 +300,48 @@ def obs(exc):
 def fmt_opt(v):
     return "N" if v is None else str(v)
 
+def named_attr(obj, prefer, part, default=None):
+    """the attribute `prefer` of the unchanged code, or - private names are not part of what the harness relies on - the one
+    attribute whose name contains `part`"""
+    if hasattr(obj, prefer):
+        return getattr(obj, prefer)
+    cands = [k for k in vars(obj) if part in k and "lock" not in k]
+    return getattr(obj, cands[0]) if len(cands) == 1 else default
+
+def queue_fns(t):
+    """frame numbers of the queued messages, whatever container holds them (list, deque, dict fn -> messages, ...), as a
+    sorted multiset: the order of arrival between different frames is internal (all bursts of one tick have one fn)"""
+    items = []
+    def walk(x):
+        if isinstance(x, dict):
+            for v in x.values():
+                walk(v)
+        elif isinstance(x, (list, tuple, set, frozenset)) or type(x).__name__ == "deque":
+            for v in x:
+                walk(v)
+        else:
+            items.append(x)
+    walk(named_attr(t, "_tx_queue", "queue", []))
+    fns, other = [], []
+    for m in items:
+        fn = getattr(m, "fn", "<%s>" % type(m).__name__)   # an element that is not a message is shown by its type name
+        if fn is None:
+            fns.append(-1)
+        elif isinstance(fn, int):
+            fns.append(fn)
+        else:
+            other.append(str(fn))
+    return "/".join(["N" if f < 0 else str(f) for f in sorted(fns)] + sorted(other)) or "-"
+
 def state(app):
     parts = []
     trxs = app.trx_list.trx_list
     for t in trxs:
         fh = "N" if t.fh is None else "%s/%s/%d" % (t.fh.hsn, t.fh.maio, len(t.fh.ma))
-        # an element that is not a message (no .fn) is shown by its type name: the state stays readable
-        q = "/".join(str(getattr(m, "fn", "<%s>" % type(m).__name__)) for m in t._tx_queue) or "-"
+        q = queue_fns(t)
         parts.append(" ".join([
-            "R%d" % int(t.running), fmt_opt(t._rx_freq), fmt_opt(t._tx_freq), fh,
-            "v%d" % t.data_if._hdr_ver, "m%d" % int(t.rf_muted), "ta%s" % t.ta,
+            "R%d" % int(t.running), fmt_opt(named_attr(t, "_rx_freq", "rx_freq")), fmt_opt(named_attr(t, "_tx_freq", "tx_freq")), fh,
+            "v%d" % named_attr(t.data_if, "_hdr_ver", "hdr_ver"), "m%d" % int(t.rf_muted), "ta%s" % t.ta,
             "p%s/%s" % (t.tx_power_base, t.tx_att_base),
             "toa%s/%s" % (t.toa256_base, t.toa256_rand_threshold),
             "rssi%s/%s/%d" % (t.rssi_base, t.rssi_rand_threshold, int(t.fake_rssi_enabled)),
@@ -364,7 +417,7 @@ def run_line(line):
             exc = e
         res.append(obs(exc))
     out = " ; ".join(res) + " | " + ports(app) + " | " + state(app)
-    if USE_WORKER and app.clck_gen._thread is not None:
+    if USE_WORKER and gen_thread(app.clck_gen) is not None:
         app.clck_gen.stop()           # do not leave a parked OS thread behind
     return out
 
